@@ -385,6 +385,25 @@ def run(ctx):
     scope += [f.module.functions[c.func.id] for f in list(scope) for c in body_walk(f.node) if isinstance(c, ast.Call) and isinstance(c.func, ast.Name) and c.func.id in f.module.functions]
     unwraps = any((isinstance(n, ast.Attribute) and n.attr == "wrapped_gate") or (isinstance(n, ast.Call) and dotted(n.func) in ("getattr", "hasattr") and len(n.args) >= 2 and isinstance(n.args[1], ast.Constant) and n.args[1].value == "wrapped_gate") for f in scope for n in body_walk(f.node))
     ctx.check(unwraps, R2, col.key + ":through-wrappers", "custom gate definitions are collected through modifier wrappers", "collect_custom_gate_definitions only recognises a custom gate applied directly: a custom gate under controlled/dagger/power/exp is serialised without its definition, and circuit_from_dict then raises 'Custom gate definition ... missing'", col)
+    # compositionality of the records: the record of a circuit inside a list is the record `_circuit_to_dict` produced for
+    # it, unaltered -- the reader of the list hands each element to the single-circuit reader, which expects a complete
+    # record (its own width, operations *and* custom-gate definitions). Moving a key out of the child records couples the
+    # circuits of a list to one another (e.g. definitions merged across circuits by gate name).
+    cs = repo.func(f"{SER}:_circuitset_to_dict")
+    ctx.analysed(cs)
+    dcs = Defs(cs.node)
+    children = {nm for nm, vs in dcs.defs.items() if any(isinstance(v, ast.AST) and "_circuit_to_dict" in norm(v) for v in vs)}
+    elems = set()
+    for lp in body_walk(cs.node):
+        if isinstance(lp, ast.For) and isinstance(lp.iter, ast.Name) and lp.iter.id in children and isinstance(lp.target, ast.Name):
+            elems.add(lp.target.id)
+    edits = []
+    for n in body_walk(cs.node):
+        if isinstance(n, ast.Call) and isinstance(n.func, ast.Attribute) and n.func.attr in ("pop", "popitem", "clear", "update", "setdefault", "__delitem__", "__setitem__") and isinstance(n.func.value, ast.Name) and n.func.value.id in elems:
+            edits.append(n)
+        if isinstance(n, ast.Subscript) and isinstance(n.ctx, (ast.Store, ast.Del)) and isinstance(n.value, ast.Name) and n.value.id in elems:
+            edits.append(n)
+    ctx.check(not edits, R1, cs.key + ":child-records-unaltered", "each circuit of a list is stored as its own complete record", f"`{short(edits[0]) if edits else ''}` edits the record of a single circuit after _circuit_to_dict produced it: the circuits of a list are no longer stored independently (custom-gate definitions of different circuits that share a name get merged, the later circuit is read back with the earlier one's matrix)", f"{cs.module.relpath}:{edits[0].lineno}" if edits else cs)
     ctx.floor("C05-D1", 40)
     ctx.floor("C05-D2", 14)
     ctx.floor("C05-D3", 10)
